@@ -151,13 +151,14 @@ class Dir:
 
     __slots__ = (
         'sender', 'peer_mtu', 'peer_mps', 'granted', 'sent', 'stream', 'sdu_need', 'sdu_have', 'sdus', 'frames',
-        'credit_frames', 'min_ledger', 'zero_credit_waits',
+        'credit_frames', 'min_ledger', 'zero_credit_waits', 'initial',
     )
 
     def __init__(self, sender, peer_mtu, peer_mps, initial):
         self.sender = sender
         self.peer_mtu = peer_mtu  # receiver's MTU: bound on every SDU length
         self.peer_mps = peer_mps  # receiver's MPS: bound on every frame payload
+        self.initial = initial
         self.granted = initial  # credits the receiver has given, counted when *delivered* to the sender
         self.sent = 0  # data frames sent
         self.stream = bytearray()  # SDU payload bytes in wire order (= the byte stream)
@@ -238,6 +239,7 @@ class Monitor:
             self.log.append(f'{side}>REQ{"e" if code == C_ECRED_REQ else ""}{d["scids"]} mtu={d["mtu"]} mps={d["mps"]} cr={d["credits"]}')
         elif code in (C_LE_RSP, C_ECRED_RSP):
             self.log.append(f'{side}>RSP{d["dcids"]} mtu={d["mtu"]} mps={d["mps"]} cr={d["credits"]} res={d["result"]}')
+            self._response_sent(side, d)
         elif code == C_CREDIT:
             self.log.append(f'{side}>CR[{d["cid"]:#x}]+{d["credits"]}')
             if (side, d['cid']) not in self.by_endpoint:
@@ -252,34 +254,50 @@ class Monitor:
         else:
             self.log.append(f'{side}>sig{code:#04x}')
 
+    def _response_sent(self, server, d):
+        """The server's half of a channel exists from the moment it sends a successful response (it may send data
+        right behind it); the client's half is funded when the response is delivered."""
+        client = 1 - server
+        req = self.requests.pop((client, d['id']), None)
+        if req is None:
+            self.problem('response_unmatched', {'what': 'response_without_request'}, f'response id {d["id"]} from side {server} matches no request')
+            return
+        enhanced = d['code'] == C_ECRED_RSP
+        if enhanced != (req['code'] == C_ECRED_REQ):
+            self.problem('response_kind', {'what': 'response_kind_mismatch'}, f'request code {req["code"]:#04x} answered with {d["code"]:#04x}')
+        if d['result'] != 0:
+            self.refused.append(d['result'])
+            return
+        if len(d['dcids']) != len(req['scids']):
+            self.problem(
+                'response_cid_count', {'what': 'dcid_count'}, f'{len(req["scids"])} channels requested, {len(d["dcids"])} destination CIDs in the successful response'
+            )
+        d['_chans'] = []
+        for ccid, scid in zip(req['scids'], d['dcids']):
+            if not (DYN_FIRST <= scid <= DYN_LAST):
+                self.problem('response_bad_cid', {'what': 'dcid_out_of_range'}, f'destination CID {scid:#06x} outside the LE dynamic range')
+                continue
+            ch = Chan(client, ccid, scid, enhanced)
+            # client sends: bounded by the server's mtu/mps, funded by the server's initial credits, and v.v.
+            cd = Dir(client, d['mtu'], d['mps'], d['credits'])
+            cd.granted = 0  # until the response is delivered
+            ch.dirs[client] = cd
+            ch.dirs[server] = Dir(server, req['mtu'], req['mps'], req['credits'])
+            self.chans.append(ch)
+            self.by_endpoint[(client, ccid)] = ch
+            self.by_endpoint[(server, scid)] = ch
+            d['_chans'].append(ch)
+
     def _sig_delivered(self, side, d):
         """side = receiving host."""
         code = d['code']
         sender = 1 - side
         if code in (C_LE_RSP, C_ECRED_RSP):
-            req = self.requests.pop((side, d['id']), None)
-            if req is None:
-                self.problem('response_unmatched', {'what': 'response_without_request'}, f'response id {d["id"]} from side {sender} matches no request')
-                return
-            enhanced = code == C_ECRED_RSP
-            if d['result'] != 0:
-                self.refused.append(d['result'])
-                return
-            if len(d['dcids']) != len(req['scids']):
-                self.problem(
-                    'response_cid_count', {'what': 'dcid_count'}, f'{len(req["scids"])} channels requested, {len(d["dcids"])} destination CIDs in the successful response'
-                )
-            for ccid, scid in zip(req['scids'], d['dcids']):
-                if not (DYN_FIRST <= scid <= DYN_LAST):
-                    self.problem('response_bad_cid', {'what': 'dcid_out_of_range'}, f'destination CID {scid:#06x} outside the LE dynamic range')
-                    continue
-                ch = Chan(side, ccid, scid, enhanced)
-                # client sends: bounded by the server's mtu/mps, funded by the server's initial credits, and v.v.
-                ch.dirs[side] = Dir(side, d['mtu'], d['mps'], d['credits'])
-                ch.dirs[sender] = Dir(sender, req['mtu'], req['mps'], req['credits'])
-                self.chans.append(ch)
-                self.by_endpoint[(side, ccid)] = ch
-                self.by_endpoint[(sender, scid)] = ch
+            # the client holds the server's initial credits from the moment the response reaches it
+            for ch in d.get('_chans', ()):
+                dr = ch.dirs[side]
+                dr.granted += dr.initial
+                dr.min_ledger = dr.granted - dr.sent
         elif code == C_CREDIT:
             # credits from `sender` fund data sent by `side` on the channel whose far endpoint is d['cid']
             ch = self.by_endpoint.get((sender, d['cid']))
@@ -294,9 +312,6 @@ class Monitor:
         self.n_data += 1
         cid, payload = d['cid'], d['payload']
         ch = self.chan_for_data(side, cid)
-        if ch is None:
-            # the server's half of a channel is usable as soon as it has *sent* the response; look at responses in flight
-            ch = self._chan_from_inflight_response(side, cid)
         if ch is None:
             if cid >= DYN_FIRST:
                 self.problem('data_unknown_cid', {'what': 'data_on_unknown_cid'}, f'side {side} sent {len(payload)} bytes on CID {cid:#06x}, not an open endpoint of the peer')
@@ -356,16 +371,6 @@ class Monitor:
         dr.sdu_need -= len(body)
         if dr.sdu_need == 0:
             dr.sdu_need = None
-
-    def _chan_from_inflight_response(self, side, cid):
-        """A server may send data right after its response; the response is then still in flight towards the client.
-        Register the channel early (same bookkeeping as at delivery) so its frames are accounted."""
-        for d in self.inflight[1 - side]:
-            if d.get('kind') == 'sig' and d['code'] in (C_LE_RSP, C_ECRED_RSP) and d.get('result') == 0:
-                req = self.requests.get((1 - side, d['id']))
-                if req and cid in req['scids']:
-                    return None  # not handled: the harness never writes before the client has the channel
-        return None
 
     # -- summary -------------------------------------------------------------
     def channel(self, client_side, index=0):
